@@ -161,6 +161,10 @@ def run_shard(ctx):
     finally:
         shutil.rmtree(workdir, ignore_errors=True)
     ctx.extra["distinct_arrival_orders"] = sorted(ctx.extra.pop("_orders", set()))
+    if X.WATCHDOG_LOG:
+        # a watchdog that fired decided nothing (the run was repeated), but it is recorded: how often, and what the run was waiting for
+        ctx.count("watchdog.multiproc-run-repeated", len(X.WATCHDOG_LOG))
+        ctx.extra["watchdog_firings"] = [{"cfg": w["cfg"], "timeout_s": w["timeout_s"], "stacks_tail": w["stacks"][-2500:]} for w in X.WATCHDOG_LOG[:2]]
 
 def finalize(merged, tier, seed):
     s = set()
